@@ -198,7 +198,9 @@ func init() {
 		"HitKind", "RayFlags", "ObjectToWorld3x4", "WorldToObject3x4", "ObjectToWorld4x3", "WorldToObject4x3",
 		"dot2add", "pack_u8", "pack_s8", "pack_clamp_u8", "pack_clamp_s8", "unpack_u8u32", "unpack_s8s32", "unpack_u8u16", "unpack_s8s16",
 		"select", "and", "or", "tex1D", "tex2D", "tex3D", "texCUBE", "tex2Dlod", "tex2Dbias", "tex2Dgrad", "tex2Dproj",
-		"f32tof16_rtz", "InterlockedAdd64", "IsHelperLane", "Barrier", "GetRemainingRecursionLevels"} {
+		"f32tof16_rtz", "InterlockedAdd64", "ProcessIsolineTessFactors", "ProcessQuadTessFactorsAvg", "ProcessQuadTessFactorsMax",
+		"ProcessQuadTessFactorsMin", "Process2DQuadTessFactorsAvg", "Process2DQuadTessFactorsMax", "Process2DQuadTessFactorsMin",
+		"ProcessTriTessFactorsAvg", "ProcessTriTessFactorsMax", "ProcessTriTessFactorsMin", "asfloat16", "countbits64", "IsHelperLane", "Barrier", "GetRemainingRecursionLevels"} {
 		unsupportedIntrinsics[n] = true
 	}
 }
@@ -319,7 +321,7 @@ func checkAs(to skind) func(p *parser, in *intrinsic, args []*expr, line int32) 
 			return nil
 		}
 		if a.t.sk == skBool {
-			p.fail(line, "%s of a bool value", in.name)
+			return p.opaque(line, nil, in.name+" of a bool value")
 		}
 		return &expr{op: eIntrinsic, in: in, t: a.t.withKind(to), args: []*expr{a}, line: line, side: a.side}
 	}
@@ -331,7 +333,7 @@ func checkBits(from, to skind) func(p *parser, in *intrinsic, args []*expr, line
 			return nil
 		}
 		if from != skFloat && args[0].t.sk == skFloat {
-			p.fail(line, "%s of a floating-point value", in.name)
+			return p.opaque(line, nil, in.name+" of a floating-point value")
 		}
 		a := p.mkConvert(args[0], args[0].t.withKind(from))
 		return &expr{op: eIntrinsic, in: in, t: a.t.withKind(to), args: []*expr{a}, line: line, side: a.side}
@@ -345,7 +347,7 @@ func checkFirstbithigh(p *parser, in *intrinsic, args []*expr, line int32) *expr
 	a := args[0]
 	switch a.t.sk {
 	case skFloat:
-		p.fail(line, "firstbithigh of a floating-point value")
+		return p.opaque(line, nil, "firstbithigh of a floating-point value")
 	case skBool:
 		a = p.mkConvert(a, a.t.withKind(skInt))
 	}
